@@ -469,6 +469,18 @@ fn mirror(world: &World) -> String {
             out.push(format!("(mi {} {} {} {})", c, e, got, has));
         }
     }
+    // stale ids: a despawned entity holds nothing - also after its slot was reused by a later spawn (same index, next
+    // generation).  Reported (as pseudo-slot 100 + slot, present in the registry, absent from the world) only when the
+    // registry answers for such an id, so nothing is printed on a correct crate
+    for (&old, &slot) in slots.old.iter() {
+        if world.get_entity(old).is_err() {
+            for &c in &uni.menu {
+                if with_ctx!(c, C => instances.get::<C>(old).is_some()) {
+                    out.push(format!("(mi {} {} true false)", c, 100 + slot));
+                }
+            }
+        }
+    }
     format!("[{}]", out.join(" "))
 }
 
@@ -919,15 +931,29 @@ impl InputModifier for CloneMod {
         r
     }
 }
+pub enum CondInner {
+    Typed(TypedCond),                // a built-in: cloned by the crate's own Clone
+    Dyn(Box<dyn InputCondition>),    // scripted / generic ones: rebuilt from the case text
+}
 pub struct CloneCond {
     id: i64,
     spec: Sx,
     log: SharedLog,
-    inner: Box<dyn InputCondition>,
+    inner: CondInner,
+}
+fn cond_inner(s: &Sx) -> CondInner {
+    match parse_cond_typed(s) {
+        Some(t) => CondInner::Typed(t),
+        None => CondInner::Dyn(parse_cond(s)),
+    }
 }
 impl Clone for CloneCond {
     fn clone(&self) -> Self {
-        CloneCond { id: self.id, spec: self.spec.clone(), log: self.log.clone(), inner: parse_cond(&self.spec) }
+        let inner = match &self.inner {
+            CondInner::Typed(t) => CondInner::Typed(t.clone()),
+            CondInner::Dyn(_) => cond_inner(&self.spec),
+        };
+        CloneCond { id: self.id, spec: self.spec.clone(), log: self.log.clone(), inner }
     }
 }
 impl std::fmt::Debug for CloneCond {
@@ -938,19 +964,25 @@ impl std::fmt::Debug for CloneCond {
 impl InputCondition for CloneCond {
     fn evaluate(&mut self, a: &bevy_enhanced_input::input_context::context_instance::ActionsData, t: &Time<Virtual>, v: ActionValue) -> ActionState {
         let seen = seen_states(a);
-        let r = self.inner.evaluate(a, t, v);
+        let r = match &mut self.inner {
+            CondInner::Typed(c) => c.evaluate(a, t, v),
+            CondInner::Dyn(c) => c.evaluate(a, t, v),
+        };
         self.log.push(LogItem::Cond { id: self.id, vin: v, res: r, seen });
         r
     }
     fn kind(&self) -> ConditionKind {
-        self.inner.kind()
+        match &self.inner {
+            CondInner::Typed(c) => c.kind(),
+            CondInner::Dyn(c) => c.kind(),
+        }
     }
 }
 fn clone_mods(l: &Sx, log: &SharedLog) -> Vec<CloneMod> {
     id_list(l).into_iter().map(|(id, s)| CloneMod { id, inner: parse_mod(&s), spec: s, log: log.clone() }).collect()
 }
 fn clone_conds(l: &Sx, log: &SharedLog) -> Vec<CloneCond> {
-    id_list(l).into_iter().map(|(id, s)| CloneCond { id, inner: parse_cond(&s), spec: s, log: log.clone() }).collect()
+    id_list(l).into_iter().map(|(id, s)| CloneCond { id, inner: cond_inner(&s), spec: s, log: log.clone() }).collect()
 }
 
 struct OwnedInputs(Vec<Input>, u8);
